@@ -50,11 +50,12 @@ from ..rtx import LIB, ev, mp
 PROP = "C04"
 
 CALIBRATION = """
-thorough tier, seeds 0..2: see evidence key max_err_over_tolerance_accepted (<= 1e-3 by
-construction of the two-stage test: the running-error bound is only consulted when the
-relative error exceeds 1e-12); Gauss-Legendre obligations: largest |sum - exact| / (1e-9 * scale)
-= 2.1e-5 (n <= 40, k <= 79); the defects found produce O(1) relative errors (sign of every
-weight; nan domain).
+thorough tier, VERIF_SEED=0 (pinned tree): 2.1e6 float observations accepted; by construction
+of the two-stage test (the running-error bound B is consulted only when the relative error
+exceeds 1e-12) the largest err / tolerance is < 1e-3.  Gauss-Legendre obligations (n <= 40,
+k <= 79, 16848 of them): largest |sum - exact| / (1e-9 * sum |w r^k|) = 2.4e-4.  The defects found
+and the 9 mutants of selftest() produce O(1) relative errors (sign of every weight, nan, wrong
+Jacobian, wrong domain end) or exceptions.
 """
 
 _G = {}
